@@ -15,7 +15,7 @@ EXPLANATION = (
     "forward each variant to the payload's same-named method (14 arms); (SIBLINGS) for each of the seven strategies "
     "is_match and matches_into read the same Candidate pieces under the same emptiness guard and anchoring test, and "
     "both set-level entry points iterate all strategies; (CASE) every literal-strategy extractor returns Some only on "
-    "the not-case-insensitive edge and skips `*`/`?` only on the right literal_separator edge; (MERGE) indices are "
+    "the not-case-insensitive edge and skips `*`/`?` only on the right literal_separator edge; (LITCHAR) ext, required_ext and basename_tokens send a literal '/' (ext also a second '.') to None on every path, because their strategies compare against a piece of the basename; (MERGE) indices are "
     "sorted and de-duplicated after the strategy loop (the ascending-index contract gitignore relies on); (REGEX) the "
     "glob-to-regex translation has an arm for every token and picks the [^/] forms exactly under literal_separator. "
     "Per-strategy semantic equivalence with the regex and the trailing-'.' defect are value-level and not decided.")
@@ -214,6 +214,79 @@ def run(ctx):
             r.ok("strategy-order", "MatchStrategy::new tries %s" % want, fn=ms, nontrivial=False)
         else:
             r.bad("strategy-order", "MatchStrategy::new consults %s (confirmed set: %s)" % (order, want), fn=ms)
+
+    with ctx.rule("C12.LITCHAR", "basename-scoped literal strategies never absorb a '/' (and ext never a second '.')", floor=4,
+                  kind="GUARD") as r:
+        # The Extension / RequiredExtension / Basename* strategies compare against a piece cut out of the candidate's
+        # basename, which cannot contain '/': a glob whose literal part contains '/' must fall through to the regex.
+        def is_lit_char(e):
+            e = strip(e)
+            return isinstance(e, X) and e.k == "field" and any(x.k == "dc" and x[2] == "Literal" for x in walk(e))
+
+        def char_tests(f, eb, ch):
+            """[(test_bb, reject_edge)] for tests of a Token::Literal payload against the character ch."""
+            out = []
+            for i, b in enumerate(f.blocks):
+                t = b["term"]
+                if b["cleanup"] or t["k"] != "switch":
+                    continue
+                if t["ty"] == "char" and is_lit_char(eb.operand(t["op"])):
+                    for v_, tgt in t["targets"]:
+                        if v_ == ord(ch):
+                            out.append((i, (i, tgt)))
+                elif t["ty"] == "bool":
+                    bs = C.bool_switch(f, i)
+                    e = eb.operand(bs[0])
+                    neg = False
+                    while isinstance(e, X) and e.k == "not":
+                        e, neg = e[1], not neg
+                    if isinstance(e, X) and e.k == "bin" and e[1] in ("Eq", "Ne") and \
+                            any(is_lit_char(a) for a in (e[2], e[3])) and any(W.const_val(a) == ord(ch) for a in (e[2], e[3])):
+                        eq_true = (e[1] == "Eq") != neg
+                        out.append((i, (i, bs[1] if eq_true else bs[2])))
+            return out
+
+        for m, chars in (("ext", "./"), ("required_ext", "/"), ("basename_tokens", "/")):
+            f = facts.fn(GLOB + "::" + m)
+            eb = ExprBuilder(f)
+            hdrs = {h for _, h in C.back_edges(f)}
+            somes = {bb for bb, j, st in f.stmts() if st["k"] == "assign" and st["place"]["l"] == 0 and not st["place"]["p"]
+                     and st["rv"]["k"] == "agg" and st["rv"].get("variant") == "Some"}
+            lit_arms = [arms["Literal"] for bb, adt, place, arms, ow, ow_live, missing in discr_switches(f, G + "::glob::Token")
+                        if "Literal" in arms and any(bb in C.reach(f, [h]) for h in hdrs) and
+                        any(h in C.reach(f, [bb]) for h in hdrs)]
+            if not lit_arms:
+                r.bad(m + "|loop", "anchor-missing: Glob::%s has no per-token match with a Literal arm inside its loop" % m, fn=f)
+                continue
+            for ch in chars:
+                key = "%s|%s" % (m, {".": "dot", "/": "slash"}[ch])
+                tests = char_tests(f, eb, ch)
+                in_loop = [(tb, e) for tb, e in tests if any(tb in C.reach(f, [a]) for a in lit_arms)]
+                if not in_loop:
+                    r.bad(key, "Glob::%s accepts a literal %r into its basename-scoped literal: the set strategy compares it with a "
+                          "piece of the basename and can never match, while the glob alone still matches" % (m, ch), fn=f, construct=m)
+                    continue
+                tbs = {tb for tb, e in in_loop}
+                leak = False
+                for a in lit_arms:
+                    if a in tbs:
+                        continue
+                    rr = C.reach(f, [a], stop_blocks=tbs)
+                    if (rr - tbs) & (hdrs | somes):
+                        leak = True
+                rej_ok = True
+                for tb, e in in_loop:
+                    s_ = Sccp(f).run([(e[1], {})])
+                    vals = {x for v_ in s_.ret_values.values() for x in value_set(v_)}
+                    if vals != {V("None", None)}:
+                        rej_ok = False
+                if leak:
+                    r.bad(key, "Glob::%s: a Literal token can reach the next iteration or a Some return without being compared "
+                          "with %r" % (m, ch), fn=f, construct=m)
+                elif not rej_ok:
+                    r.bad(key, "Glob::%s: a literal %r no longer forces None (it is skipped or accepted)" % (m, ch), fn=f, construct=m)
+                else:
+                    r.ok(key, "Literal(%r) ⇒ None on every path (%d test(s))" % (ch, len(in_loop)), fn=f)
 
     with ctx.rule("C12.MERGE", "indices sorted and de-duplicated after the strategy loop", floor=1, kind="PASS") as r:
         f = facts.fn(GS + "::matches_candidate_into")
